@@ -26,6 +26,8 @@ def check(repo, tier="quick"):
     res.rule("C15.b", "table keys: dt_key/flag/index are entries of dict_type, vp_key of VideoParameters; dict_type is the context type that reads the flag; level keys equal the validator's keys for that syntax function")
     res.rule("C15.c", "iter_source_parameter_options composes the eight generators in SourceParameters' entry order; colour spec nests primaries/matrix/transfer exactly under index 0")
     res.rule("C15.e", "accepted under the configured level: each candidate base format is combined only with level-table columns filtered for that base format; defaults and header carry the same candidate")
+    res.rule("C15.g", "the hand-written colour-specification generator: flag clear only if all three of primaries, matrix and transfer function of the base format equal the wanted ones; a preset (other than 0) only if its three fields, in the namedtuple's order, equal the wanted ones; the explicit form is relative to preset 0's three values and nests the three sub-generators under their own keys")
+    res.rule("C15.h", "the validator accepts what the encoder may emit: each `assert_in_enum(value, E, exception)` of the validator's sequence-header functions names the enumeration with which the bitstream description declares the very field the checked value is read into (fixeddict Entry enum=...), which is the enumeration the encoder's preset indices are drawn from")
     res.rule("C15.d", "yielded dictionaries: flag-clear only if the base format already matches; preset only if the preset tuple equals the wanted values; custom values copied from the wanted video parameters; headers built from set_source_defaults of the same base format")
 
     ot = enc_tables.option_tables(repo)
@@ -34,6 +36,8 @@ def check(repo, tier="quick"):
     rule_b(repo, res, ot)
     rule_c(repo, res, ot)
     rule_d(repo, res, ot)
+    rule_colorspec(repo, res)
+    rule_enum_agreement(repo, res)
     from .c16 import level_filter_rule
 
     level_filter_rule(repo, res, "C15.e")
@@ -46,6 +50,8 @@ def check(repo, tier="quick"):
     res.floor("C15.b", 40)
     res.floor("C15.c", 3)
     res.floor("C15.d", 5)
+    res.floor("C15.g", 6)
+    res.floor("C15.h", 8)
     res.assumptions = ["decoded-equals-requested is behaviour; the check decides table agreement, which is necessary for it", "vc2_data_tables namedtuple field order is read from its source"]
     res.trusted = ["vc2_data_tables source", "serdes model of bitstream/vc2.py"]
     return res
@@ -244,3 +250,138 @@ def rule_d(repo, res, ot):
         if isinstance(n, ast.Call) and dotted(n.func) == "ParseParameters":
             kw = {k.arg: norm(k.value) for k in n.keywords}
     res.check(kw.get("profile") == "codec_features['profile']" and kw.get("level") == "codec_features['level']", "C15.d", "parse-parameters:profile-level", "%s:make_parse_parameters" % pm.rel, "ParseParameters must carry the configured profile and level (found %s)" % kw, by="profile, level from codec_features")
+
+
+def rule_colorspec(repo, res):
+    from ..core import pfind, pmatch, pall
+
+    m, fn = repo.func(enc_tables.SH + ":iter_color_spec_options")
+    where = "%s:iter_color_spec_options" % m.rel
+    fields = repo.ext.namedtuples.get("ColorSpecificiation")
+    if not fields or len(fields) != 3:
+        raise AnalysisError("vc2_data_tables.ColorSpecificiation fields not found")
+    base, want, lc = [a.arg for a in fn.args.args[:3]]
+    yields = [y for y in ast.walk(fn) if isinstance(y, ast.Yield) and isinstance(y.value, ast.Call) and dotted(y.value.func) == "ColorSpec"]
+    kw = lambda y: dict((k.arg, k.value) for k in y.value.keywords)
+
+    def guard_terms(node):
+        out = []
+        c, p = node, getattr(node, "_parent", None)
+        while p is not None and p is not fn:
+            if isinstance(p, ast.If) and any(c is x for x in p.body):
+                t = p.test
+                out.extend(t.values if isinstance(t, ast.BoolOp) and isinstance(t.op, ast.And) else [t])
+            c, p = p, getattr(p, "_parent", None)
+        return out
+
+    clear = [y for y in yields if isinstance(kw(y).get("custom_color_spec_flag"), ast.Constant) and kw(y)["custom_color_spec_flag"].value is False]
+    ok = False
+    found = None
+    if len(clear) == 1 and set(kw(clear[0])) == {"custom_color_spec_flag"}:
+        for t in guard_terms(clear[0]):
+            if isinstance(t, ast.Call) and dotted(t.func) == "all" and len(t.args) == 1 and isinstance(t.args[0], ast.GeneratorExp):
+                g = t.args[0]
+                if len(g.generators) == 1 and isinstance(g.generators[0].iter, (ast.List, ast.Tuple)) and not g.generators[0].ifs:
+                    kv = dotted(g.generators[0].target)
+                    found = [const_str(e) for e in g.generators[0].iter.elts]
+                    ok = set(found) == set(fields) and norm(g.elt) in ("%s[%s] == %s[%s]" % (base, kv, want, kv), "%s[%s] == %s[%s]" % (want, kv, base, kv))
+    res.check(ok, "C15.g", "colour-spec:flag-clear-needs-all-three", where, "custom_color_spec_flag may be left clear only under all(base[k] == wanted[k]) over exactly %s (found %s): otherwise the decoder keeps the base format's value for the omitted one" % (fields, found), by="all three of %s compared" % fields)
+    lvl = [norm(t) for y in clear for t in guard_terms(y)]
+    res.check("False in %s['custom_color_spec_flag']" % lc in lvl, "C15.g", "colour-spec:flag-clear-allowed-by-level", where, "the clear flag must be offered only if the level allows it", by="False in level['custom_color_spec_flag']")
+    # preset
+    pres = [y for y in yields if dotted(kw(y).get("custom_color_spec_flag")) is None and isinstance(kw(y).get("custom_color_spec_flag"), ast.Constant) and kw(y)["custom_color_spec_flag"].value is True and set(kw(y)) == {"custom_color_spec_flag", "index"}]
+    ok = False
+    if len(pres) == 1:
+        loop = None
+        p = getattr(pres[0], "_parent", None)
+        while p is not None and p is not fn:
+            if isinstance(p, ast.For):
+                loop = p
+                break
+            p = getattr(p, "_parent", None)
+        if loop is not None and norm(loop.iter) == "PRESET_COLOR_SPECS.items()" and isinstance(loop.target, ast.Tuple) and len(loop.target.elts) == 2 and isinstance(loop.target.elts[1], ast.Tuple) and len(loop.target.elts[1].elts) == 3:
+            idx = dotted(loop.target.elts[0])
+            names = [dotted(e) for e in loop.target.elts[1].elts]
+            terms = set(norm(t) for t in guard_terms(pres[0]))
+            need = set(["%s != 0" % idx, "True in %s['custom_color_spec_flag']" % lc, "%s in %s['color_spec_index']" % (idx, lc)])
+            eqs = all(("%s[%r] == %s" % (want, f, n)) in terms or ("%s == %s[%r]" % (n, want, f)) in terms for f, n in zip(fields, names))
+            ok = need <= terms and eqs and dotted(kw(pres[0])["index"]) == idx
+    res.check(ok, "C15.g", "colour-spec:preset-needs-equal-fields", where, "a colour-spec preset may be emitted only for index != 0 whose three fields, unpacked in the order %s, equal the wanted values, and only if the level allows the flag and the index" % fields, by="wanted[f] == field f of the preset, for all three, in namedtuple order")
+    # explicit form relative to preset 0
+    n, e = pfind("X_c = %s.copy()" % base, fn)
+    ok = False
+    cb = None
+    if n is not None:
+        cb = e["X_c"]
+        n2, e2 = pfind("X_p = PRESET_COLOR_SPECS[0]", fn)
+        if n2 is not None:
+            ok = all(pfind("%s[%r] = %s.%s" % (cb, f, e2["X_p"], f), fn)[0] is not None for f in fields)
+    res.check(ok, "C15.g", "colour-spec:explicit-form-relative-to-preset-0", where, "with index 0 the decoder first loads preset 0: the sub-options must be computed against a copy of the base parameters with all three of %s overwritten by PRESET_COLOR_SPECS[0]'s" % fields, by="custom_base_vp[f] = PRESET_COLOR_SPECS[0].f for all three")
+    full = [y for y in yields if set(kw(y)) == {"custom_color_spec_flag", "index", "color_primaries", "color_matrix", "transfer_function"}]
+    ok = False
+    if len(full) == 1 and cb:
+        k = kw(full[0])
+        loop = None
+        p = getattr(full[0], "_parent", None)
+        while p is not None and p is not fn:
+            if isinstance(p, ast.For):
+                loop = p
+                break
+            p = getattr(p, "_parent", None)
+        if loop is not None and isinstance(loop.iter, ast.Call) and dotted(loop.iter.func) == "zip_longest_repeating_final_value" and isinstance(loop.target, ast.Tuple) and len(loop.target.elts) == 3 and len(loop.iter.args) == 3:
+            tn = [dotted(x) for x in loop.target.elts]
+            gens = [dotted(a.func) if isinstance(a, ast.Call) else None for a in loop.iter.args]
+            args_ok = all(isinstance(a, ast.Call) and [dotted(x) for x in a.args] == [cb, want, lc] for a in loop.iter.args)
+            ok = (
+                gens == ["iter_color_primaries_options", "iter_color_matrix_options", "iter_transfer_function_options"]
+                and args_ok
+                and [dotted(k["color_primaries"]), dotted(k["color_matrix"]), dotted(k["transfer_function"])] == tn
+                and isinstance(k["index"], ast.Constant) and k["index"].value == 0
+                and isinstance(k["custom_color_spec_flag"], ast.Constant) and k["custom_color_spec_flag"].value is True
+            )
+            terms = set(norm(t) for t in guard_terms(full[0]))
+            ok = ok and {"True in %s['custom_color_spec_flag']" % lc, "0 in %s['color_spec_index']" % lc} <= terms
+    res.check(ok, "C15.g", "colour-spec:explicit-form-nests-own-generators", where, "the explicit form must carry index 0 and the results of iter_color_primaries_options / iter_color_matrix_options / iter_transfer_function_options (each called with the preset-0 base, the wanted parameters and the level column) under color_primaries / color_matrix / transfer_function respectively, and only if the level allows the flag and index 0", by="three sub-generators, own keys, preset-0 base")
+    res.check(len(yields) == 3, "C15.g", "colour-spec:three-forms-only", where, "iter_color_spec_options must yield exactly the three reviewed forms (found %d ColorSpec yields)" % len(yields), by="clear / preset / explicit")
+
+
+def rule_enum_agreement(repo, res):
+    """validator's assert_in_enum enumerations vs the enumeration the bitstream description declares for the same field"""
+    dm = repo.mod("decoder.sequence_header")
+    bm = repo.mod("bitstream.vc2")
+    decl = {}
+    for fd in tables.fixeddicts(repo):
+        if fd.var:
+            decl[fd.var] = fd
+    n = 0
+    for fname, fn in sorted(dm.funcs.items()):
+        calls = [c for c in ast.walk(fn) if isinstance(c, ast.Call) and dotted(c.func) == "assert_in_enum" and len(c.args) == 3]
+        if not calls:
+            continue
+        bfn = bm.funcs.get(fname)
+        if bfn is None:
+            raise AnalysisError("bitstream.vc2 has no counterpart of the validator's %s" % fname)
+        ctx = None
+        for d in bfn.decorator_list:
+            if isinstance(d, ast.Call) and dotted(d.func) == "context_type" and d.args:
+                ctx = dotted(d.args[0])
+        if ctx not in decl:
+            raise AnalysisError("context type of bitstream.vc2:%s not found" % fname)
+        # variable (as written) -> field name it is read into, in the description program
+        read_into = {}
+        for a in ast.walk(bfn):
+            if isinstance(a, ast.Assign) and len(a.targets) == 1 and isinstance(a.value, ast.Call) and isinstance(a.value.func, ast.Attribute) and dotted(a.value.func.value) == "serdes" and a.value.args and const_str(a.value.args[0]):
+                read_into.setdefault(norm(a.targets[0]), set()).add(const_str(a.value.args[0]))
+        for c in calls:
+            n += 1
+            enum, exc = dotted(c.args[1]), dotted(c.args[2])
+            fields = read_into.get(norm(c.args[0]), set())
+            if len(fields) != 1:
+                raise AnalysisError("cannot tell which field %s of %s is read into (%s)" % (norm(c.args[0]), fname, sorted(fields)))
+            field = next(iter(fields))
+            entry = decl[ctx].entries.get(field)
+            if entry is None:
+                raise AnalysisError("%s does not declare %r" % (ctx, field))
+            res.check(entry.enum == enum, "C15.h", "%s:%s" % (fname, field), "%s:%s" % (dm.rel, fname), "the validator checks %s.%s against the enumeration %s (raising %s) but the bitstream description declares that field with enum=%s, the enumeration the encoder's indices are drawn from: values the encoder may emit are rejected, or unknown values accepted" % (ctx, field, enum, exc, entry.enum), by="%s.%s is declared with enum=%s" % (ctx, field, entry.enum))
+    if n == 0:
+        raise AnalysisError("no assert_in_enum call found in decoder.sequence_header")
